@@ -19,7 +19,7 @@ RULE = ("cases = (funcs) the real SpatialBeamFunctionals group (tube and wingbox
 ASSUMPTIONS = ["closed-form beam stress formulas (N/A, M h/I, M r/I, T r/J, Bredt T/(2 t A_enc))", "numpy"]
 REQUIRED_FAMILIES = ["vm/nonnegative", "vm/rigid_motion_zero", "vm/linear_scaling", "ks/lower_bound", "ks/upper_bound", "ks/finite",
                      "exact/definition", "closed/tube_axial", "closed/tube_bending", "closed/tube_torsion", "closed/wingbox_axial",
-                     "closed/wingbox_bending_top_bottom", "closed/wingbox_bending_front_rear", "closed/wingbox_torsion"]
+                     "closed/wingbox_bending_top_bottom", "closed/wingbox_bending_front_rear", "closed/wingbox_torsion", "modes/pure_torsion", "modes/pure_axial", "modes/pure_bending", "modes/finite"]
 LEVEL_TEXT = ("the real stress-recovery and failure components are executed on generated displacement fields, rigid motions, "
               "scaled fields, extreme stress magnitudes and aggregation parameters; invariants (non-negativity, rigid-motion "
               "nullity, homogeneity, KS bounds) and closed-form cantilever stresses are checked on every execution")
